@@ -201,7 +201,14 @@ impl PartitionStorage for FilePartitionStorage {
                 last_segment.end_offset = last_segment.current_offset;
             }
 
-            partition.current_offset = last_segment.current_offset;
+            if last_segment.size_bytes == 0 && last_segment.start_offset > 0 {
+                // The last segment holds no message yet (created by a roll-over or as the replacement of
+                // deleted segments): every offset below its start has been assigned, the next one is its start.
+                partition.current_offset = last_segment.start_offset - 1;
+                partition.should_increment_offset = true;
+            } else {
+                partition.current_offset = last_segment.current_offset;
+            }
         }
 
         partition
